@@ -1,0 +1,46 @@
+// SPDX-FileCopyrightText: 2020 - 2025 SAP SE
+//
+// SPDX-License-Identifier: Apache-2.0
+
+//go:build verif
+
+// Contracts for the verification machinery under /verif (comment-only file;
+// compiled only with -tags verif and contains no code).
+
+package namepool
+
+//@ # C18 (sequential part). The id pool hands out pointers to id cells; a Name holds one.
+//@ typeinv pool { [idpool] this.idPool != nil }
+//@ typeinv Name { [holder] this.id != nil ==> this.pool != nil }
+
+//@ # the minting closure: a fresh cell holding the incremented counter (never zero unless
+//@ # 2^64 ids have been minted)
+//@ func Pool$1 returns (x)
+//@   requires [pool] pool != nil && deref(pool) != nil
+//@   ensures [fresh-cell] is(x, *uint64) && fresh(x)
+//@   ensures [counter] deref(pool).idCounter == (old(deref(pool).idCounter) + 1) % 18446744073709551616
+//@   ensures [value] deref(as(x, *uint64)) == deref(pool).idCounter
+
+//@ func Pool returns (p)
+//@   ensures [fresh] p != nil && fresh(p) && p.idCounter == 0 && p.format == format
+
+//@ func (*pool).Release
+//@   modifies name.name, name.id, name.pool
+//@   ensures [cleared] name != nil && old(name.id) != nil ==> name.id == nil && name.pool == nil && name.name == ""
+//@   ensures [idempotent] name != nil && old(name.id) == nil ==> name.name == old(name.name) && name.pool == old(name.pool)
+//@ func (*Name).Release
+//@   requires [holder] name.pool != nil
+//@ func (Name).ID returns (r)
+//@   requires [held] name.id != nil
+
+//@ # sync.Pool as used here (assumed): Get returns a value that was Put before or the result
+//@ # of the New function; both are non-nil *uint64 cells (Release only puts non-nil ids, the
+//@ # minting closure Pool$1 is verified to return a fresh cell).
+//@ extern (*sync.Pool).Get returns (x)
+//@   modifies all pool.idCounter
+//@   ensures [id-cell] is(x, *uint64) && payload(x) != 0
+//@ extern (*sync.Pool).Put params (x)
+//@   modifies
+
+//@ func (*pool).Acquire returns (r)
+//@   ensures [held] r != nil && fresh(r) && r.id != nil && r.pool == pool
